@@ -420,7 +420,8 @@ def parcor_stable(filt):
 
   """
   try:
-    return all(abs(k) < 1 for k in parcor(ZFilter(filt.denpoly)))
+    den = filt.denpoly / filt.denpoly[0] # Step-down needs a monic polynomial
+    return all(abs(k) < 1 for k in parcor(ZFilter(den)))
   except ParCorError:
     return False
 
